@@ -425,7 +425,13 @@ impl C06Node {
             return (h, v, if outgoing { 500 } else { 600 });
         }
         let h = rng.below(NHASH as u64) as usize;
-        let v = *rng.pick(&[600u64, 2000, 2200, 2220, 50_000, 50_222, 50_223, 100_000, 100_222, 100_223, 200_000]);
+        let mut v = *rng.pick(&[600u64, 2000, 2200, 2220, 50_000, 50_222, 50_223, 100_000, 100_222, 100_223, 200_000]);
+        // now and then a small part at or below the trim thresholds of the commitment (497 sat for offered, 507 sat for
+        // received HTLCs at FEERATE): the node must not LIST such an HTLC (policy-commitment-outputs-trimmed); a payment
+        // split into many such parts would otherwise escape the in-flight accounting
+        if rng.chance(1, 14) {
+            v = *rng.pick(&[1u64, 100, 330, 400, 496, 497, 498, 506, 507, 508]);
+        }
         let cltv = if outgoing { *rng.pick(&[500u32, 500, 500, 515, 610]) } else { *rng.pick(&[600u32, 600, 600, 520]) };
         (h, v, cltv)
     }
@@ -478,7 +484,10 @@ impl Sim {
         format!("cpsign {} {} {} {}", c, kind, fmt_list(&self.cp_inc), fmt_list(&self.cp_out))
     }
     fn hval(&self, c: usize, kind: &str) -> String {
-        format!("hval {} {} {} {}", c, kind, fmt_list(&self.h_out), fmt_list(&self.h_inc))
+        // parts below the trim thresholds are only sent through the counterparty-commitment requests: the repo's test
+        // utilities that build and counter-sign a HOLDER commitment panic on an HTLC without an output
+        let lift = |v: &Vec<H>| -> Vec<H> { v.iter().map(|x| (x.0, x.1.max(600), x.2)).collect() };
+        format!("hval {} {} {} {}", c, kind, fmt_list(&lift(&self.h_out)), fmt_list(&lift(&self.h_inc)))
     }
 }
 
@@ -516,7 +525,16 @@ impl Group for C06Node {
                     [l, ty] if *ty == "h" || *ty == "d" => (l.to_string(), ty.to_string()),
                     _ => ("0".to_string(), "u".to_string()),
                 };
-                Some(format!("init {} {} {} {} {} {}", nch, p.max_routing_fee_msat, p.max_feerate_percentage, p.cltv_delta, vl, vt))
+                // the commitment feerate of the harness and the HTLC-transaction weights of the linked LDK for the
+                // channel type in use: the model computes the trim thresholds from them and the MIN_DUST_LIMIT_SATOSHIS
+                // constant the translator reads from the source
+                let features = lightning_signer::util::test_utils::make_test_channel_setup().features();
+                let wt = lightning_signer::lightning::ln::chan_utils::htlc_timeout_tx_weight(&features);
+                let ws = lightning_signer::lightning::ln::chan_utils::htlc_success_tx_weight(&features);
+                Some(format!(
+                    "init {} {} {} {} {} {} {} {} {}",
+                    nch, p.max_routing_fee_msat, p.max_feerate_percentage, p.cltv_delta, vl, vt, FEERATE, wt, ws
+                ))
             }
             ["keysend", a, b, c, "direct"] => Some(format!("keysend {} {} {}", a, b, c)),
             ["invoice", a, b, c, d, e, "direct"] => Some(format!("invoice {} {} {} {} {}", a, b, c, d, e)),
@@ -578,6 +596,10 @@ impl Group for C06Node {
             // approvals recorded as zero: an amountless BOLT-11 invoice (through the approver and directly) and a keysend of
             // 0 msat back no HTLC of any size, on one or several channels; covered by incoming value they are forwards
             split(&format!("init 3|invoice 0 0 {t} 3600 0|cpsign 0 new - 0:100000:500|cpsign 1 new - 0:600:500 p1|hval 2 new 0:2000:500 -|keysend 1 0 {t}|cpsign 0 new - 1:600:500|hval 1 new 1:100000:500 - p1|invoice 2 0 {t} 3600 1 direct|cpsign 2 new - 2:200000:500|restart|cpsign 2 new - 2:200000:500|cpsign 0 new - 0:600:500|hval 0 new - 0:2000:600|revoke 0|cpsign 0 new 0:2000:600 0:2000:500|cprevoke 0|cpsign 0 new 0:2000:600 0:2223:500|invoice 0 0 {t} 3600 0|invoice 0 5000 {t} 3600 0")),
+            // small parts around the trim thresholds (offered: 497 sat, received: 507 sat at the harness feerate): listed
+            // below the threshold = refused on both counterparty-signing entry points, whatever the hash; at the threshold
+            // they count in full
+            split(&format!("init 2|keysend 0 1000 {t}|cpsign 0 new - 0:400:500 p1|cpsign 0 new - 0:506:500|cpsign 0 new - 2:100:500 p1|cpsign 0 new 0:496:600 - p1|cpsign 0 new 0:497:600 -|cpsign 1 new - 0:507:500 p1|keysend 1 2000000 {t}|cpsign 1 new - 1:507:500,1:507:500,1:507:500,1:507:500 p1|cprevoke 1|cpsign 1 new - 1:507:500,1:507:500,1:507:500,1:507:500,1:400:500 p1|cpsign 1 new - 1:507:500,1:507:500,1:507:500,1:507:500,1:507:500")),
             // u64 extreme approval: a + max_routing_fee overflows
             split(&format!("init 2|keysend 0 18446744073709551615 {t}|cpsign 0 new - 0:2000:500|cpsign 1 new - -")),
         ]
